@@ -25,6 +25,8 @@ type cenv struct {
 	hdr   *ssa.BasicBlock
 	bound map[string]Val
 	depth int
+	// skipParams: resolveLocal ignores definitions that are the parameter itself
+	skipParams bool
 }
 
 type cevalErr struct{ msg string }
@@ -99,6 +101,9 @@ func (x *vc) resolveLocal(env *cenv, name string) (Val, bool) {
 	isZeroConst := func(d *namedDef) bool { _, ok := d.v.(*ssa.Const); return ok }
 	for i := range defs {
 		d := &defs[i]
+		if _, isParam := d.v.(*ssa.Parameter); isParam && env.skipParams {
+			continue
+		}
 		if _, isPhi := d.v.(*ssa.Phi); isPhi && env.hdr != nil && defBlock(d) != env.hdr && !defBlock(d).Dominates(env.hdr) {
 			continue
 		}
@@ -365,6 +370,16 @@ func (x *vc) evalIdent(env *cenv, name string) Val {
 				}
 			}
 		}
+		// a parameter re-assigned before the loop (`v = f(v)`): inside the loop the name means the current value;
+		// the entry value is old(v)
+		if _, isParam := env.vars[name]; isParam {
+			env.skipParams = true
+			v, ok := x.resolveLocal(env, name)
+			env.skipParams = false
+			if ok {
+				return v
+			}
+		}
 	}
 	if v, ok := env.vars[name]; ok {
 		return v
@@ -619,6 +634,8 @@ func (x *vc) evalCall(env *cenv, e *cexpr) Val {
 		return Val{T: and(not(app("fp.isNaN", v)), not(app("fp.isInfinite", v))), Typ: boolT}
 	case "floor":
 		return Val{T: app("fp.roundToIntegral RTN", x.eval(env, e.args[0]).T), Typ: types.Typ[types.Float64]}
+	case "trunc":
+		return Val{T: app("fp.roundToIntegral RTZ", x.eval(env, e.args[0]).T), Typ: types.Typ[types.Float64]}
 	case "real":
 		v := x.eval(env, e.args[0])
 		return Val{T: app("to_real", v.T), Typ: nil}
@@ -732,6 +749,11 @@ func (x *vc) evalCall(env *cenv, e *cexpr) Val {
 		a := x.eval(env, e.args[0])
 		b := x.eval(env, e.args[1])
 		return Val{T: x.strEq(a, b), Typ: boolT}
+	case "strlt":
+		// Go's byte-wise string order (the same relation symbol the executor uses for < on strings)
+		a := x.eval(env, e.args[0])
+		b := x.eval(env, e.args[1])
+		return Val{T: app("strlt", a.T, b.T), Typ: boolT}
 	}
 	// uninterpreted spec functions: ufb_<name>(...) : Bool, ufi_<name>(...) : Int  (declared on first use)
 	if strings.HasPrefix(e.name, "ufb_") || strings.HasPrefix(e.name, "ufi_") {
